@@ -1,5 +1,5 @@
 (* C14 model runner.
-   build <cwd> <lua_path> <main_path> <main_content> <path:content,path:content,...|~>
+   build <cwd> <lua_path_arg|~> <lua_path_env|~> <main_path> <main_content> <path:content,path:content,...|~>
         -> OK <code> <name,name,...|~>  |  ERR <name>
       (files are keyed by normalised absolute path; the main file is passed separately and must
        also be in the list if it can be require()d)
@@ -10,11 +10,13 @@ let pairs s =
   List.map (fun kv -> match String.split_on_char ':' kv with
                       | [k; v] -> (bytes_of_hex k, bytes_of_hex v)
                       | _ -> failwith "bad pair") (String.split_on_char ',' s)
+let opt s = if s = "~" then None else Some (bytes_of_hex s)
 let hexlist l = match l with [] -> "~" | _ -> String.concat "," (List.map hex_of_bytes l)
 let handle fields =
   match fields with
-  | ["build"; cwd; lp; mp; mc; files] ->
-    (match run_build (bytes_of_hex cwd) (pairs files) (bytes_of_hex lp) (bytes_of_hex mp) (bytes_of_hex mc) with
+  | ["build"; cwd; a; e; mp; mc; files] ->
+    (match run_build (bytes_of_hex cwd) (pairs files) (effective_lua_path_now (opt a) (opt e))
+             (bytes_of_hex mp) (bytes_of_hex mc) with
      | Ok (code, names) -> "OK " ^ hex_of_bytes code ^ " " ^ hexlist names
      | Err e -> "ERR " ^ err_name e)
   | ["walk"; c; gl] ->
